@@ -360,6 +360,17 @@ def runRib {β : Type} (rotate : β → List α) (withinTol : Int → Int → Bo
     (pts : List β) (ws : List Int) (plen : Nat) : Outcome :=
   run withinTol cfg iter (pts.map rotate) ws plen
 
+/-- The exact instance used by the theorems' witnesses: integers, `/ 2.0` is floor
+division, every distance is finite. -/
+instance instCoordInt : Coord Int where
+  lt a b := decide (a < b)
+  le a b := decide (a ≤ b)
+  add a b := a + b
+  sub a b := a - b
+  half a := a / 2
+  zero := 0
+  ltInf _ := true
+
 /-! ## Specification vocabulary (used by the theorems of C03 / C04) -/
 
 /-- `t` is a recursive bisection of the points `key i axis` (`i` = point index):
@@ -386,6 +397,9 @@ structure OrderLawsOn (S : α → Prop) : Prop where
   irrefl : ∀ a, S a → Coord.lt a a = false
   neg_trans : ∀ a b c, S a → S b → S c →
     Coord.lt a b = true → Coord.lt c b = false → Coord.lt a c = true
+
+/-- Coordinate `c` of point `i` of a point list (the `key` the specification talks about). -/
+def ptKey (pts : List (List α)) (i c : Nat) : α := (pts.getD i []).getD c Coord.zero
 
 /-- The leaves of a tree: `(part id, members)`. -/
 def Tree.leaves {ι : Type} : Tree ι → List (Nat × List Nat)
